@@ -1240,6 +1240,35 @@ def _free_consts(t, skip):
     return out
 
 
+def _indicator_select(body, k, lo, hi):
+    """sum_k ite(k == e, v, 0) with e free of k  ==  ite(lo <= e < hi, v[k := e], 0)   (sum_onehot_select,
+    lean/Lemmas.lean): the sum of a one-hot column against anything selects one term"""
+    t = body
+    if z3.is_app_of(t, z3.Z3_OP_TO_REAL):
+        inner = _indicator_select(t.arg(0), k, lo, hi)
+        return None if inner is None else z3.ToReal(O.to_z3(inner))
+    if not z3.is_app_of(t, z3.Z3_OP_ITE):
+        return None
+    c, a, b = t.arg(0), t.arg(1), t.arg(2)
+    if not ((z3.is_int_value(b) and b.as_long() == 0) or (z3.is_rational_value(b) and b.numerator_as_long() == 0)):
+        return None
+    if not z3.is_eq(c):
+        return None
+    l, r = c.arg(0), c.arg(1)
+    if r.eq(k):
+        l, r = r, l
+    if not l.eq(k) or _mentions_const(r, k):
+        return None
+    v = z3.substitute(a, (k, r))
+    return ite(And(O.to_z3(lo) <= r, r < O.to_z3(hi)), v, 0)
+
+
+def _mentions_const(t, c):
+    if t.eq(c):
+        return True
+    return any(_mentions_const(ch, c) for ch in t.children())
+
+
 def Sum(lo, hi, f, kind='int'):
     """sum_{k=lo}^{hi-1} f(k).  Concrete bounds: explicit addition.  Symbolic: an application
     SUM_<summand shape>(free constants of the summand, lo, hi) of an uninterpreted function that
@@ -1268,6 +1297,9 @@ def Sum(lo, hi, f, kind='int'):
         body = z3.ToReal(body)
     if kind == 'int' and z3.is_real(body):
         kind = 'real'
+    sel = _indicator_select(body, k, lo, hi)
+    if sel is not None:
+        return sel
     body = z3.simplify(body)
     consts = _free_consts(body, [k])
     ph = [z3.Const('ph!%d' % i, c.sort()) for i, c in enumerate(consts)]
@@ -1383,6 +1415,43 @@ def _mean(fr, x, *a, **kw):
 
 
 POOLLEN = z3.Function('POOLLEN', z3.IntSort(), z3.IntSort(), z3.IntSort(), z3.IntSort(), z3.IntSort(), z3.BoolSort(), z3.IntSort())
+
+
+@lib('torch.unique')
+def _unique(fr, x, *a, **kw):
+    """torch.unique(X) (sorted distinct values) - an assumed relation: a strictly increasing vector U of some
+    length nu whose entries are exactly the values of X (every element of X is some U[k], every U[k] is attained)"""
+    if a or any(kw.get(k) for k in kw if k != 'sorted'):
+        raise Unsupported("torch.unique with options")
+    x = as_tn(fr, x)
+    ctx = fr.ctx
+    nm = O.fresh_name('uniq')
+    nu = z3.Int(nm + '.n')
+    sort = z3.RealSort() if x.kind == 'real' else z3.IntSort()
+    U = z3.Function(nm + '.U', z3.IntSort(), sort)
+    pos = z3.Function(nm + '.pos', *([z3.IntSort()] * x.rank), z3.IntSort())
+    wit = [z3.Function('%s.w%d' % (nm, d), z3.IntSort(), z3.IntSort()) for d in range(x.rank)]
+    s = x.snapshot()
+    if x.kind == 'bool':
+        raise Unsupported("torch.unique of a bool tensor")
+    ctx.assume(nu >= 0)
+    idx = [z3.Int('%s_i%d' % (nm, d)) for d in range(x.rank)]
+    k, j = z3.Ints('%s_k %s_j' % (nm, nm))
+    inbox = z3.And(*[z3.And(0 <= i, i < O.to_z3(d)) for i, d in zip(idx, x.shape)]) if idx else z3.BoolVal(True)
+    if idx:
+        ctx.assume(z3.ForAll(idx, z3.Implies(inbox, z3.And(0 <= pos(*idx), pos(*idx) < nu, U(pos(*idx)) == O.to_z3(s(*idx)))),
+                             patterns=[pos(*idx)]))
+        witk = [w(k) for w in wit]
+        ctx.assume(z3.ForAll([k], z3.Implies(z3.And(0 <= k, k < nu),
+                                             z3.And(*[z3.And(0 <= wk, wk < O.to_z3(d)) for wk, d in zip(witk, x.shape)],
+                                                    O.to_z3(s(*witk)) == U(k))), patterns=[U(k)]))
+    else:
+        ctx.assume(z3.And(nu == 1, U(0) == O.to_z3(s())))
+    ctx.assume(z3.ForAll([j, k], z3.Implies(z3.And(0 <= j, j < k, k < nu), U(j) < U(k)), patterns=[z3.MultiPattern(U(j), U(k))]))
+    ctx.trusted.add('axiom: torch.unique returns the strictly increasing vector of the values that occur in its argument')
+    out = Tn.fresh([nu], lambda i: U(O.to_z3(i)), x.kind, lib=x.lib)
+    out.unique_of = {'pos': pos, 'U': U, 'n': nu, 'src': x}
+    return out
 
 
 @lib('torch.nn.functional.max_pool1d')
